@@ -81,6 +81,17 @@ pub fn run_hdr(args: &[&str]) -> String {
     format!("{} | {}", p, peeks(&d))
 }
 
+/// PEEKF hex mask: header_buffer::has_flags with a set of flags
+pub fn run_peekf(args: &[&str]) -> String {
+    if args.len() != 2 {
+        return "BADCASE".into();
+    }
+    match (hex_to_bytes(args[0]), hex_to_u128(args[1])) {
+        (Some(d), Some(m)) if m < 65536 => res(header_buffer::has_flags(&d, PacketFlag::from_bits_truncate(m as u16)), |b| b01(b).to_string()),
+        _ => "BADCASE".into(),
+    }
+}
+
 pub fn run_peek(args: &[&str]) -> String {
     if args.len() != 1 {
         return "BADCASE".into();
